@@ -611,6 +611,17 @@ impl Sim {
     st.step += 1;
     st.stats.steps += 1;
     if st.free_run {
+      // the OS schedules this run (a primitive outside the seam blocked the baton holder): the
+      // hooks that are left become seeded jitter points, so that the threads do not run in the
+      // same lock step every time (a short sleep or a yield widens whatever window there is)
+      let r = st.rng.below(16);
+      let us = 20 + st.rng.below(300);
+      drop(g);
+      if r == 0 {
+        std::thread::sleep(Duration::from_micros(us));
+      } else if r < 4 {
+        std::thread::yield_now();
+      }
       return true;
     }
     st.sample_state();
